@@ -14,6 +14,13 @@ Supported
                conditional expressions, tuples, subscripts of tuple-typed *parameters* by a literal,
                max/min/abs/pow/divmod/int/float/floor(a/b), isqrt, calls to other translated functions
                and to declared opaque functions, attribute reads declared in `attrs`.
+  extensions : `bexprs` {python source of a boolean expression: Coq bool term} (e.g. an enum test
+               `self.payoff_type == PayoffType.CALL` bound to a bool parameter);
+               `vectors` {name or attribute text: [component terms]} = fixed-length numpy vectors: an
+               assignment `v = <elementwise expr>` whose right-hand side mentions a declared vector
+               defines a new vector componentwise (only + - * /, unary -, constants, scalars and the
+               elementwise calls np.maximum/np.minimum/np.abs are accepted there); `v[i]` with a
+               literal index reads a component; any other use of a vector is refused.
   domains    : "Z" (Python int), "Q" (exact rationals standing for floats), "R" (reals).
 """
 from __future__ import annotations
@@ -49,6 +56,17 @@ class Ctx:
         self.tuple_params = fn.get("tuple_params", {})  # name -> [component coq names]
         self.int_names = set(fn.get("int_names", []))
         self.rename = fn.get("rename", {})
+        # --- opt-in extensions (C18/C20), all fail-closed -------------------------------------
+        self.attrs = dict(self.attrs)
+        self.attr_assign = bool(fn.get("attr_tail"))     # `self.x = e` becomes `let self_x := e`
+        self.subst = fn.get("subst", {})                 # python source text of a sub-expression -> Coq term
+        self.elementwise = fn.get("elementwise")         # {"arrays": [...], "uninit": coq name}: numpy code read pointwise
+        self.nested_defs = bool(fn.get("nested_defs"))   # inner `def f(x): ...` becomes `let f := fun x => ...`
+        self.bexprs = dict(spec.get("bexprs", {}))  # python source of a boolean expression -> coq bool term
+        self.bexprs.update(fn.get("bexprs", {}))
+        self.vectors = {k: list(v) for k, v in fn.get("vectors", {}).items()}  # name/attr text -> component terms
+        self.vec_index = None                      # component being translated (elementwise mode)
+        self.ext = None                            # plug-in (spec["ext"] = module with class Ext): sees every node first, None = not handled
 
 
 def lit(ctx: Ctx, v) -> str:
@@ -78,8 +96,18 @@ def src(node) -> str:
 
 def expr(ctx: Ctx, e) -> str:
     d = ctx.d
+    if ctx.ext is not None:
+        r = ctx.ext.expr(ctx, e)
+        if r is not None:
+            return r
+    if ctx.subst and src(e) in ctx.subst:
+        return ctx.subst[src(e)]
     if isinstance(e, ast.Constant):
         return lit(ctx, e.value)
+    if isinstance(e, (ast.Name, ast.Attribute)) and src(e) in ctx.vectors:
+        if ctx.vec_index is None:
+            raise Unsupported(f"vector {src(e)} used where a scalar is expected")
+        return ctx.vectors[src(e)][ctx.vec_index]
     if isinstance(e, ast.Name):
         if e.id in ctx.consts:
             return ctx.consts[e.id]
@@ -129,6 +157,14 @@ def expr(ctx: Ctx, e) -> str:
     if isinstance(e, ast.Tuple):
         return "(" + ", ".join(expr(ctx, x) for x in e.elts) + ")"
     if isinstance(e, ast.Subscript):
+        if isinstance(e.value, (ast.Name, ast.Attribute)) and src(e.value) in ctx.vectors:
+            comps = ctx.vectors[src(e.value)]
+            k = e.slice.value if isinstance(e.slice, ast.Constant) else None
+            if isinstance(e.slice, ast.UnaryOp) and isinstance(e.slice.op, ast.USub) and isinstance(e.slice.operand, ast.Constant):
+                k = -e.slice.operand.value
+            if not isinstance(k, int) or isinstance(k, bool) or not -len(comps) <= k < len(comps):
+                raise Unsupported(f"vector subscript {src(e)}")
+            return comps[k]
         if isinstance(e.value, ast.Name) and e.value.id in ctx.tuple_params and isinstance(e.slice, ast.Constant):
             comps = ctx.tuple_params[e.value.id]
             return comps[e.slice.value]
@@ -158,9 +194,20 @@ def power(ctx: Ctx, a, b) -> str:
 def call(ctx: Ctx, e: ast.Call) -> str:
     d = ctx.d
     f = src(e.func)
+    args = e.args
+    if ctx.elementwise:
+        arrays = ctx.elementwise.get("arrays", [])
+        kw = {k.arg: k.value for k in e.keywords}
+        # np.ones(len(arr), dtype=bool): the all-true mask, read pointwise
+        if f == "np.ones" and len(args) == 1 and set(kw) == {"dtype"} and src(kw["dtype"]) == "bool" \
+                and isinstance(args[0], ast.Call) and src(args[0].func) == "len" and len(args[0].args) == 1 \
+                and src(args[0].args[0]) in arrays:
+            return "true"
+        # np.divide(x, y, where=mask) without `out`: quotient where the mask holds, uninitialised memory elsewhere
+        if f == "np.divide" and len(args) == 2 and set(kw) == {"where"}:
+            return f"(if {bexpr(ctx, kw['where'])} then ({d['div']} {expr(ctx, args[0])} {expr(ctx, args[1])}) else {ctx.elementwise['uninit']})"
     if e.keywords:
         raise Unsupported(f"keyword arguments in {src(e)}")
-    args = e.args
     if f in ctx.calls:
         return "(" + " ".join([ctx.calls[f]] + [expr(ctx, a) for a in args]) + ")"
     if f in ("max", "min") and len(args) >= 2:
@@ -193,6 +240,12 @@ def call(ctx: Ctx, e: ast.Call) -> str:
 
 def bexpr(ctx: Ctx, e) -> str:
     d = ctx.d
+    if ctx.ext is not None:
+        r = ctx.ext.bexpr(ctx, e)
+        if r is not None:
+            return r
+    if src(e) in ctx.bexprs:
+        return ctx.bexprs[src(e)]
     if isinstance(e, ast.Compare):
         parts = []
         left = e.left
@@ -230,6 +283,52 @@ def bexpr(ctx: Ctx, e) -> str:
     if isinstance(e, ast.Name) or isinstance(e, ast.Attribute) or isinstance(e, ast.Call):
         return expr(ctx, e)  # boolean-typed name / call
     raise Unsupported(f"boolean expression {src(e)}")
+
+
+ELEMENTWISE_CALLS = {"np.maximum", "np.minimum", "np.abs", "np.fabs"}
+
+
+def mentioned_vectors(ctx: Ctx, e) -> list[str]:
+    return [src(n) for n in ast.walk(e) if isinstance(n, (ast.Name, ast.Attribute)) and src(n) in ctx.vectors]
+
+
+def check_elementwise(ctx: Ctx, e):
+    """accept only expressions that numpy evaluates componentwise on a 1-d vector"""
+    if isinstance(e, (ast.Constant, ast.Name, ast.Attribute)):
+        return
+    if isinstance(e, ast.BinOp) and isinstance(e.op, (ast.Add, ast.Sub, ast.Mult, ast.Div)):
+        check_elementwise(ctx, e.left)
+        check_elementwise(ctx, e.right)
+        return
+    if isinstance(e, ast.UnaryOp) and isinstance(e.op, (ast.USub, ast.UAdd)):
+        check_elementwise(ctx, e.operand)
+        return
+    if isinstance(e, ast.Call) and src(e.func) in ELEMENTWISE_CALLS and not e.keywords:
+        for a in e.args:
+            check_elementwise(ctx, a)
+        return
+    raise Unsupported(f"not an elementwise expression over a declared vector: {src(e)}")
+
+
+def vector_assign(ctx: Ctx, name: str, value, rest_term) -> str:
+    """`name = <elementwise expr over declared vectors>`: one let per component; rest_term() is
+    called after `name` has been declared as a vector."""
+    lens = {len(ctx.vectors[v]) for v in mentioned_vectors(ctx, value)}
+    if len(lens) != 1:
+        raise Unsupported(f"vectors of different lengths in {src(value)}")
+    n = lens.pop()
+    check_elementwise(ctx, value)
+    comps, lets = [], []
+    for i in range(n):
+        ctx.vec_index = i
+        try:
+            term = expr(ctx, value)
+        finally:
+            ctx.vec_index = None
+        comps.append(f"{ctx.rename.get(name, name)}_{i}")
+        lets.append(f"let {comps[-1]} := {term} in\n  ")
+    ctx.vectors[name] = comps
+    return "".join(lets) + rest_term()
 
 
 def always_returns(stmts) -> bool:
@@ -274,6 +373,10 @@ def block(ctx: Ctx, stmts, tail: str | None, on_raise: str | None) -> str:
     s, rest = stmts[0], stmts[1:]
     if isinstance(s, ast.Expr) and isinstance(s.value, ast.Constant) and isinstance(s.value.value, str):
         return block(ctx, rest, tail, on_raise)
+    if ctx.ext is not None:
+        r = ctx.ext.stmt(ctx, s, rest, tail, on_raise)
+        if r is not None:
+            return r
     if isinstance(s, ast.Return):
         if s.value is None:
             raise Unsupported("bare return")
@@ -286,6 +389,10 @@ def block(ctx: Ctx, stmts, tail: str | None, on_raise: str | None) -> str:
         if len(s.targets) != 1:
             raise Unsupported("multiple assignment targets")
         t = s.targets[0]
+        if isinstance(t, ast.Name) and mentioned_vectors(ctx, s.value) and not isinstance(s.value, ast.Subscript):
+            return vector_assign(ctx, t.id, s.value, lambda: block(ctx, rest, tail, on_raise))
+        if isinstance(t, ast.Name) and t.id in ctx.vectors:
+            raise Unsupported(f"vector {t.id} re-assigned to a scalar")
         if isinstance(t, ast.Name):
             return f"let {ctx.rename.get(t.id, t.id)} := {expr(ctx, s.value)} in\n  {block(ctx, rest, tail, on_raise)}"
         if isinstance(t, ast.Tuple) and all(isinstance(x, ast.Name) for x in t.elts):
@@ -297,7 +404,30 @@ def block(ctx: Ctx, stmts, tail: str | None, on_raise: str | None) -> str:
             else:
                 val = expr(ctx, v)
             return f"let '({names}) := {val} in\n  {block(ctx, rest, tail, on_raise)}"
+        if isinstance(t, ast.Attribute) and ctx.attr_assign and isinstance(t.value, ast.Name) and t.value.id == "self":
+            val = expr(ctx, s.value)          # evaluated before the attribute is rebound
+            name = src(t).replace(".", "_")
+            ctx.attrs[src(t)] = name          # later reads of self.x see the value just stored
+            return f"let {name} := {val} in\n  {block(ctx, rest, tail, on_raise)}"
+        if isinstance(t, ast.Subscript) and ctx.elementwise and isinstance(t.value, ast.Name) \
+                and isinstance(t.slice, ast.Compare):
+            # arr[mask] = value, read pointwise: the element is replaced where the mask holds
+            n = ctx.rename.get(t.value.id, t.value.id)
+            v = s.value
+            val = lit(ctx, v.value) if isinstance(v, ast.Constant) and isinstance(v.value, bool) else expr(ctx, v)
+            return f"let {n} := (if {bexpr(ctx, t.slice)} then {val} else {n}) in\n  {block(ctx, rest, tail, on_raise)}"
         raise Unsupported(f"assignment target {src(t)}")
+    if isinstance(s, ast.FunctionDef) and ctx.nested_defs:
+        a = s.args
+        if a.vararg or a.kwarg or a.kwonlyargs or a.defaults or a.posonlyargs or s.decorator_list:
+            raise Unsupported(f"nested def {s.name}: unsupported signature")
+        loaded = {n.id for n in ast.walk(s) if isinstance(n, ast.Name)}
+        if loaded & set(assigned(rest)) or s.name in assigned(rest):
+            raise Unsupported(f"nested def {s.name}: a captured name is re-assigned later (late binding)")
+        ps = " ".join(f"({x.arg} : {ctx.d['ty']})" for x in a.args)
+        body = block(ctx, s.body, None, on_raise)
+        ctx.calls[s.name] = s.name
+        return f"let {s.name} := (fun {ps} =>\n  {body}) in\n  {block(ctx, rest, tail, on_raise)}"
     if isinstance(s, ast.AugAssign) and isinstance(s.target, ast.Name):
         fake = ast.BinOp(left=ast.Name(id=s.target.id, ctx=ast.Load()), op=s.op, right=s.value)
         n = ctx.rename.get(s.target.id, s.target.id)
@@ -343,8 +473,33 @@ def find_function(tree: ast.Module, qual: str) -> ast.FunctionDef:
 
 
 def translate_function(tree, spec, fn) -> str:
+    if "kind" in fn:   # special emitters (lambda conditions, class-level guards, one assignment's rhs): harness/py2coq_fourier.py
+        import py2coq_fourier
+        return py2coq_fourier.KINDS[fn["kind"]](tree, spec, fn)
+    if "emitter" in fn:   # "module:function" -> function(tree, spec, fn) returns the whole Definition (fail-closed like the rest)
+        import importlib
+        m, f = fn["emitter"].split(":")
+        return getattr(importlib.import_module(m), f)(tree, spec, fn)
     node = find_function(tree, fn["py"])
     ctx = Ctx(spec, fn)
+    if spec.get("ext"):
+        import importlib
+        ctx.ext = importlib.import_module(spec["ext"]).Ext(ctx, spec, fn)
+    if fn.get("attr_tail"):
+        # straight-line method made of `self.x = e` / local assignments only; the definition's value is
+        # what the method leaves in the attribute fn["attr_tail"]
+        for st in node.body:
+            if not (isinstance(st, ast.Assign) or (isinstance(st, ast.Expr) and isinstance(st.value, ast.Constant))):
+                raise Unsupported(f"{fn['py']}: attr_tail needs a straight-line body, found {type(st).__name__}")
+        params = " ".join(f"({n} : {t})" for n, t in fn["args"])
+        pyargs = [a.arg for a in node.args.args if a.arg not in ("self", "cls")]
+        if fn.get("pyargs") is not None and fn["pyargs"] != pyargs:
+            raise Unsupported(f"{fn['py']}: signature changed: {pyargs} (expected {fn['pyargs']})")
+        tail = fn["attr_tail"].replace(".", "_")
+        body = block(ctx, node.body, tail, fn.get("on_raise"))
+        if ctx.attrs.get(fn["attr_tail"]) != tail:
+            raise Unsupported(f"{fn['py']}: {fn['attr_tail']} is never assigned")
+        return f"Definition {fn['coq']} {params} : {fn['ret']} :=\n  {body}.\n"
     params = " ".join(f"({n} : {t})" for n, t in fn["args"])
     pyargs = [a.arg for a in node.args.args if a.arg not in ("self", "cls")]
     declared = fn.get("pyargs")
